@@ -11,6 +11,8 @@ import (
 	"github.com/google/gce-tcb-verifier/eventlog"
 	"github.com/google/uuid"
 	"pgregory.net/rapid"
+
+	"verif/internal/ev"
 )
 
 // Harness-side model of the TCG PC Client Platform Firmware Profile structures the package reads
@@ -91,6 +93,7 @@ type seg struct {
 }
 
 type renc struct {
+	spPad  int // zero bytes appended inside every SP800-155 event chunk (documented HOB padding)
 	b      []byte
 	segs   []seg
 	bounds []int // offsets at which a complete log ends (after the header and after each event)
@@ -140,9 +143,12 @@ func spBodyLen(sp *mSP) int {
 
 func (e *renc) data(d mData) {
 	if d.SP != nil {
-		e.u32("EventSize", kSize32, uint32(16+spBodyLen(d.SP)))
+		e.u32("EventSize", kSize32, uint32(16+spBodyLen(d.SP)+e.spPad))
 		e.put("Signature", kFixed, spSig)
 		e.spBody(d.SP)
+		if e.spPad > 0 {
+			e.put("Padding", kData, make([]byte, e.spPad))
+		}
 		return
 	}
 	e.u32("EventSize", kSize32, uint32(len(d.Raw)))
@@ -438,7 +444,15 @@ func dataFromPkg(d eventlog.TCGEventData) mData {
 	case *eventlog.SP800155Event3:
 		return mData{SP: spFromPkg(e)}
 	}
-	panic(fmt.Sprintf("harness: unexpected event type %T", d.Event))
+	// an event type this harness has no model for (the package may register further signatures):
+	// treat it as the opaque bytes it marshals to, and say so in the evidence
+	ev.Note("el: event data decoded to %T, a type the harness has no model for; it is compared as the opaque bytes it marshals to", d.Event)
+	ev.Class("el/eventdata", "inconclusive/unmodelled-event-type")
+	raw, err := d.Event.MarshalToBytes()
+	if err != nil {
+		return mData{Raw: []byte(fmt.Sprintf("<unmodelled %T: %v>", d.Event, err))}
+	}
+	return mData{Raw: nz(append([]byte(nil), raw...))}
 }
 
 func digestsToPkg(ds []mDigest) eventlog.Uint32SizedArrayT[*eventlog.TaggedDigest] {
@@ -494,10 +508,22 @@ func modelEqual(a, b any) bool { return reflect.DeepEqual(a, b) }
 // ---------------------------------------------------------------------------------------------
 // generators (values inside the ABI range)
 
+// wide enables the mid-range lengths and counts (strings of 13..252 bytes, arrays of 25..254 and
+// 301..20000 bytes, 5..40 digests, 5..40 events). TestElLogTruncation, which decodes every prefix of
+// every log, switches it off to stay quadratic in a small number.
+var wide = true
+
 func genCStr(t *rapid.T, label string) (string, bool) {
 	n := 0
 	boundary := false
-	switch rapid.IntRange(0, 9).Draw(t, label+"_lenmode") {
+	switch rapid.IntRange(0, 10).Draw(t, label+"_lenmode") {
+	case 10:
+		if wide {
+			n = rapid.SampledFrom([]int{13, 31, 32, 63, 64, 100, 127, 128, 129, 200, 252}).Draw(t, label+"_mid")
+			if rapid.Bool().Draw(t, label+"_midany") {
+				n = rapid.IntRange(13, 252).Draw(t, label+"_midlen")
+			}
+		}
 	case 0:
 		n, boundary = 0, true
 	case 1:
@@ -532,6 +558,20 @@ func genArr(t *rapid.T, label string) ([]byte, bool) {
 		return genBytes(t, 1, label), true
 	case 2:
 		return genBytes(t, rapid.IntRange(255, 300).Draw(t, label+"_big"), label), false
+	case 3:
+		if wide {
+			return genBytes(t, rapid.IntRange(25, 254).Draw(t, label+"_mid"), label), false
+		}
+	case 4:
+		if wide && rapid.IntRange(0, 3).Draw(t, label+"_huge") == 0 {
+			n := rapid.SampledFrom([]int{301, 1023, 1024, 4095, 4096, 4097, 8192, 20000}).Draw(t, label+"_hugelen")
+			b := make([]byte, n)
+			x := byte(rapid.IntRange(1, 255).Draw(t, label+"_hugeseed"))
+			for i := range b {
+				b[i] = x + byte(i*7)
+			}
+			return b, false
+		}
 	}
 	return nz(genBytes(t, rapid.IntRange(0, 24).Draw(t, label+"_len"), label)), false
 }
@@ -600,6 +640,9 @@ func genDigest(t *rapid.T) mDigest {
 
 func genDigests(t *rapid.T, max int) []mDigest {
 	n := rapid.IntRange(0, max).Draw(t, "ndigests")
+	if wide && rapid.IntRange(0, 7).Draw(t, "manydigests") == 0 {
+		n = rapid.SampledFrom([]int{5, 8, 9, 16, 17, 40}).Draw(t, "ndigests_many")
+	}
 	var ds []mDigest
 	for i := 0; i < n; i++ {
 		ds = append(ds, genDigest(t))
@@ -634,6 +677,9 @@ func genLog(t *rapid.T, maxEvents int) mLog {
 	var l mLog
 	l.Hdr, _ = genHdr(t)
 	n := rapid.IntRange(0, maxEvents).Draw(t, "nevents")
+	if wide && rapid.IntRange(0, 7).Draw(t, "manyevents") == 0 {
+		n = rapid.SampledFrom([]int{5, 8, 9, 16, 17, 40}).Draw(t, "nevents_many")
+	}
 	for i := 0; i < n; i++ {
 		v, _ := genEv2(t)
 		l.Evs = append(l.Evs, v)
@@ -644,7 +690,10 @@ func genLog(t *rapid.T, maxEvents int) mLog {
 // ---------------------------------------------------------------------------------------------
 // readers
 
-var readerKinds = []string{"buffer", "reader", "onebyte"}
+// readerKinds: bytes.Buffer and bytes.Reader return (0, io.EOF) after the last byte;
+// iotest.OneByteReader and iotest.HalfReader deliver fewer bytes than asked for;
+// iotest.DataErrReader returns the final bytes together with io.EOF. All are legal io.Readers.
+var readerKinds = []string{"buffer", "reader", "onebyte", "half", "dataerr"}
 
 // decodeVia runs dec on a reader of the given kind over b and reports how many bytes it consumed.
 func decodeVia(kind string, b []byte, dec func(r io.Reader) (any, error)) (m any, consumed int, err error, pan any) {
@@ -661,9 +710,18 @@ func decodeVia(kind string, b []byte, dec func(r io.Reader) (any, error)) (m any
 	case "onebyte":
 		x := bytes.NewReader(cp)
 		r, left = iotest.OneByteReader(x), x.Len
+	case "half":
+		x := bytes.NewReader(cp)
+		r, left = iotest.HalfReader(x), x.Len
+	case "dataerr":
+		// DataErrReader reads ahead of its consumer, so the consumed count is not observable (-1)
+		r = iotest.DataErrReader(bytes.NewReader(cp))
 	default:
 		panic("harness: reader kind " + kind)
 	}
 	err, pan = call(func() (e error) { m, e = dec(r); return })
+	if left == nil {
+		return m, -1, err, pan
+	}
 	return m, len(b) - left(), err, pan
 }
